@@ -33,6 +33,7 @@ META = {
         "target node and replacement name are selectors over the whole stream, corrupt values are symbolic strings of <= 1 (quick) / 2 (thorough) code points over ASCII + U+00E9, U+0663, U+2000",
         "text level, through the real lxml / expat front ends (harness/textpath.py): truncation at EVERY byte offset of a pool document, every byte replaced by each of 8 bytes (< & NUL 0xFF \" > x space), 9 kinds of junk after the root "
         "element; both handlers: instance or documented error, and the native handler must not return an instance when expat, driven directly, calls the bytes not well-formed",
+        "JSON text: truncation at every byte offset and each of 10 byte values at every offset of the pool documents' JSON text through JsonParser.from_bytes",
         "dictionaries: drop / rename / duplicate-as-list / scalar<->list<->object swaps / wrong nesting on every key path (selectors), symbolic scalar replacement",
     ],
     "outside": ["random byte strings; multi-point faults; the text-level drivers execute the C parsers (nothing about them is modelled, the solver enumerates offsets)",
@@ -323,8 +324,59 @@ def text_fault(k: int, j: int) -> bool:
         return result(_text_fault(_DOC, _TFKIND, ck, cj)["ok"])
 
 
+JFLIPS = [0x3C, 0x22, 0x00, 0xFF, 0x2C, 0x7D, 0x5B, 0x31, 0x6E, 0x5C]
+_JTEXT = {}
+
+
+def _json_text(doc):
+    if doc not in _JTEXT:
+        from xsdata.formats.dataclass.context import XmlContext
+        from xsdata.formats.dataclass.serializers import JsonSerializer
+
+        cls, obj = mutate.DOCS[doc]
+        _JTEXT[doc] = (cls, JsonSerializer(context=XmlContext()).render(obj).encode())
+    return _JTEXT[doc]
+
+
+def _jt_n():
+    with untraced():
+        return len(_json_text(_DOC)[1])
+
+
+def _json_text_fault(doc, kind, k, j):
+    """JSON TEXT with one fault (truncation at offset k | byte k replaced by JFLIPS[j]) through the real JsonParser.from_bytes."""
+    import warnings
+
+    from xsdata.formats.dataclass.context import XmlContext
+    from xsdata.formats.dataclass.parsers import JsonParser
+
+    cls, data = _json_text(doc)
+    bad = data[:k] if kind == "truncate" else data[:k] + bytes([JFLIPS[j]]) + data[k + 1 :]
+    try:
+        with warnings.catch_warnings():
+            warnings.simplefilter("ignore")
+            res = JsonParser(context=XmlContext()).from_bytes(bad, cls)
+        return {"ok": isinstance(res, cls), "bytes": repr(bad[max(0, k - 30) : k + 30]), "outcome": "returned " + repr(res)[:200]}
+    except ALLOWED as e:
+        return {"ok": True, "outcome": "raised " + type(e).__name__}
+    except Exception as e:  # noqa: BLE001
+        return {"ok": False, "bytes": repr(bad[max(0, k - 30) : k + 30]), "outcome": "leaked %s: %s" % (type(e).__name__, str(e)[:120])}
+
+
+def json_text_fault(k: int, j: int) -> bool:
+    """
+    pre: 0 <= k < _jt_n()
+    pre: 0 <= j < (1 if _TFKIND == "truncate" else len(JFLIPS))
+    post: _
+    """
+    ck = concretize_bs(k, _jt_n())
+    cj = concretize(j, 1 if _TFKIND == "truncate" else len(JFLIPS))
+    with untraced():
+        return result(_json_text_fault(_DOC, _TFKIND, ck, cj)["ok"])
+
+
 PRE = {}
-EXPLAIN = {"fault": explain_fault, "text_fault": lambda k, j: _text_fault(_DOC, _TFKIND, k, j)}
+EXPLAIN = {"fault": explain_fault, "json_text_fault": lambda k, j: _json_text_fault(_DOC, _TFKIND, k, j), "text_fault": lambda k, j: _text_fault(_DOC, _TFKIND, k, j)}
 KINDS = ["delete", "duplicate", "retag", "swap", "inject", "text", "attr", "delattr", "addattr", "xsitype", "xsinil", "qname"]
 
 
@@ -349,6 +401,9 @@ def plan(tier):
     for doc in (["basic", "holder", "qnames", "mixed", "wild", "anytyped"] if quick else sorted(mutate.DOCS)):
         for tkind in ("truncate", "junk", "flip"):
             jobs.append(Job("text_fault", {"doc": doc, "tkind": tkind}, 600, 30, note="real lxml / expat front ends; offset symbolic"))
+    for doc in (["basic", "holder", "compound", "wild"] if quick else sorted(mutate.DOCS)):
+        for tkind in ("truncate", "flip"):
+            jobs.append(Job("json_text_fault", {"doc": doc, "tkind": tkind}, 600, 30, note="real json front end; offset symbolic"))
     for d_i, doc in enumerate(["basic", "parenta", "holder", "lists", "compound", "wrapped", "nillable", "enums", "unionmodels", "wild", "wlderived"] if quick else list(mutate.DOCS)):
         jobs.append(Job("dict_fault", {"doc": doc, "strict": 1, "fcw": d_i % 2, "tlen": tlen}, 240, 30))
         if not quick or d_i % 2 == 0:
